@@ -816,20 +816,24 @@ def record_values_wire(m, w, variant=None):
     return vals + res + [model_to_wire("varint", ver, w)]
 
 
-def record_ident_wire(m, variant=None):
+def record_ident_wire(m, variant=None, bin_names=False):
     _, name, fields, _, _ = m
+    wname = name.encode("utf-8") if bin_names else name
     if variant == "bare-name":
-        return name
-    return [name, descriptor_hash(name, fields)]
+        return wname
+    return [wname, descriptor_hash(name, fields)]
 
 
-def record_to_ext(m, w, variant=None):
+def record_to_ext(m, w, variant=None, bin_names=False):
     if m[0] == "grouped":
-        return ext14(T_GROUPED, [m[1], [[record_ident_wire(x), record_values_wire(x, w)] for x in m[2]]], w)
-    return ext14(T_RECORD, [record_ident_wire(m, variant), record_values_wire(m, w, variant)], w)
+        return ext14(T_GROUPED, [m[1], [[record_ident_wire(x, None, bin_names), record_values_wire(x, w)] for x in m[2]]], w)
+    return ext14(T_RECORD, [record_ident_wire(m, variant, bin_names), record_values_wire(m, w, variant)], w)
 
 
-def descriptor_to_ext(name, fields, w):
+def descriptor_to_ext(name, fields, w, bin_names=False):
+    if bin_names:
+        # streams written by the Python 2 era releases carry names as msgpack raw/bin values
+        return ext14(T_DESC, [name.encode("utf-8"), [[t.encode("utf-8"), n.encode("utf-8")] for t, n in fields]], w)
     return ext14(T_DESC, [name, [[t, n] for t, n in fields]], w)
 
 
@@ -856,7 +860,7 @@ def model_descriptors(m, out):
         out.append((name, fields))
 
 
-def encode_stream(models, widths=None, variants=None, repeat_desc_at=(), repeat_header_at=()):
+def encode_stream(models, widths=None, variants=None, repeat_desc_at=(), repeat_header_at=(), bin_names=False):
     """Reference-encode models into a conforming stream.
 
     variants: per-record compatibility variant (None | 'no-version' | 'extra-reserved-1' |
@@ -870,12 +874,12 @@ def encode_stream(models, widths=None, variants=None, repeat_desc_at=(), repeat_
         for d in need:
             if d not in emitted:
                 emitted.append(d)
-                out.append(frame(pack(descriptor_to_ext(d[0], d[1], w), w)))
+                out.append(frame(pack(descriptor_to_ext(d[0], d[1], w, bin_names), w)))
         if i in repeat_desc_at and emitted:
             d = emitted[i % len(emitted)]
-            out.append(frame(pack(descriptor_to_ext(d[0], d[1], w), w)))
+            out.append(frame(pack(descriptor_to_ext(d[0], d[1], w, bin_names), w)))
         if i in repeat_header_at:
             out.append(HEADER_FRAME)
         variant = variants[i] if variants and m[0] == "record" else None
-        out.append(frame(pack(record_to_ext(m, w, variant), w)))
+        out.append(frame(pack(record_to_ext(m, w, variant, bin_names), w)))
     return b"".join(out)
